@@ -173,6 +173,16 @@ func VH_BuildHostile() {
 			sr.Filters = append(sr.Filters, FilterSpec{Type: ValueFilterType, LHS: "pid", Comparator: "=", RHS: "1"})
 		}
 		sr.Keys = []string{"k"}
+		switch vChoose("mix", 3) {
+		case 1: // the field over the limit is an inter-field comparison
+			sr.Filters[len(sr.Filters)-1] = FilterSpec{Type: InterFieldFilterType, LHS: "auid", Comparator: "!=", RHS: "uid"}
+			sr.Keys = nil
+		case 2: // comparisons only
+			for i := range sr.Filters {
+				sr.Filters[i] = FilterSpec{Type: InterFieldFilterType, LHS: "uid", Comparator: "=", RHS: "euid"}
+			}
+			sr.Keys = nil
+		}
 		r = sr
 	case 2: // garbage list / action / field / operator / value strings
 		g := func(name string) string {
